@@ -49,13 +49,16 @@ def _quoted():
     blank = st.sampled_from(['" "', '"  "', '"\t"', '" \t "', '""', '"\\t"', '"\\n"', '" \\n "', '"\u00a0"', '"\u3000 "'])   # blank-only contents
     return st.one_of(st.lists(piece, max_size=6).map(lambda ps: '"' + "".join(ps) + '"'),
                      st.lists(piece, max_size=6).map(lambda ps: '"' + "".join(ps) + '"'),
-                     st.lists(piece, max_size=6).map(lambda ps: '"' + "".join(ps) + '"'), blank)
+                     st.lists(piece, max_size=6).map(lambda ps: '"' + "".join(ps) + '"'), blank,
+                     # strings whose content reads like another kind of value: still strings
+                     st.sampled_from(['"null"', '"true"', '"false"', '"on"', '"1"', '"-1.5e3"', '"$v"', '"[]"', '"{}"', '"ENUM_VALUE"']))
 
 
 def _block():
     indent = st.sampled_from(["", "", " ", "  ", "\t", "    ", " \t", "\u00a0", "\u3000 ", "\u2003"])
     body = st.sampled_from(["", "", "a", "b c", "x", '\\"""', "\\", '"', '""', "\\n",
                             '\\""""', '"\\"""', '\\"""\\"""', '\\"""""', 'x\\""""y', '""\\"""', '\\"""\\""""',
+                            "null", "null", "true", "false", "1", "$v",   # content that reads like another kind of value
                             "\u00e9", "\U0001F600",   # (the line above: runs of >= 4 quotes)
                             "\u2028", "\u0085", "\u2029", "\u00a0z", "#", "\x1c", "\x1d", "\x1e", "\u3000", "\u00a0"])
     line = st.builds(lambda i, b, t: i + b + t, indent, body, st.sampled_from(["", "", " ", "\t"]))
